@@ -7,8 +7,10 @@ import (
 	"math/big"
 	"strings"
 	"sync"
+	"sync/atomic"
 	"time"
 
+	"github.com/vipnode/vipnode/v2/ethnode"
 	"github.com/vipnode/vipnode/v2/jsonrpc2"
 	"github.com/vipnode/vipnode/v2/pool"
 	"github.com/vipnode/vipnode/v2/pool/store"
@@ -411,4 +413,338 @@ func c06ReplayAfterContention(ev *vlib.Evidence, driver string, idx int) {
 		}
 	}
 	ev.Case(fmt.Sprintf("replay-after-contention/%s/%s/%d", driver, method, idx), true)
+}
+
+// c08PeersReadFails (C08): the pool cannot read the requester's peer list
+// while it answers a peer request. Whatever it answers, a host the requester
+// already peers with is neither returned nor told to whitelist it again.
+func c08PeersReadFails(ev *vlib.Evidence, driver string, idx int) {
+	r := vlib.Rand("C08-readfault-"+driver, idx)
+	var chaos *vlib.Chaos
+	w, err := vlib.NewWorld(vlib.WorldOptions{Driver: driver,
+		WrapStore: func(s store.Store) store.Store { chaos = vlib.NewChaos(s, int64(idx)); return chaos }})
+	if err != nil {
+		panic(err)
+	}
+	defer w.Close()
+	nh := 1 + r.Intn(5)
+	hosts := []*vlib.Identity{}
+	for i := 0; i < nh; i++ {
+		h := vlib.NewIdentity("c08fhost", i)
+		if _, err := w.ConnectHost(h, "geth", fmt.Sprintf("192.0.2.%d:30303", i+1)); err != nil {
+			ev.Inconclusive(fmt.Sprintf("c08 read-fault setup: %v", err))
+			return
+		}
+		hosts = append(hosts, h)
+	}
+	requester := vlib.NewIdentity("c08freq", idx%5)
+	rc, err := w.ConnectClient(requester, "geth", "192.0.2.200:30303")
+	if err != nil {
+		ev.Inconclusive(fmt.Sprintf("c08 read-fault setup: %v", err))
+		return
+	}
+	peered := map[string]bool{}
+	infos := []ethnode.PeerInfo{}
+	for i, h := range hosts {
+		if i == 0 || r.Intn(2) == 0 {
+			peered[h.NodeID] = true
+			infos = append(infos, ethnode.PeerInfo{ID: h.NodeID})
+		}
+	}
+	if _, err := w.Update(rc.AgentSide, requester, infos, 1); err != nil {
+		ev.Inconclusive(fmt.Sprintf("c08 read-fault setup: %v", err))
+		return
+	}
+	method := vlib.Pick(r, "vipnode_peer", "vipnode_peer", "vipnode_client")
+	var arg interface{} = pool.PeerRequest{Num: nh, Kind: vlib.Pick(r, "", "geth")}
+	if method == "vipnode_client" {
+		arg = pool.ClientRequest{NumHosts: nh, Kind: "geth"}
+	}
+	ask := func() (callOutcome, []store.Node, map[string]int) {
+		stamp := w.Tick()
+		n := w.NextNonce(requester.NodeID)
+		out := guardedCall(rc.AgentSide, method, vlib.RefSign(requester.Key, method, requester.NodeID, n, arg), requester.NodeID, n, arg)
+		wl := map[string]int{}
+		for _, e := range w.EventsSince(stamp) {
+			if e.Method == "whitelist" && strings.EqualFold(e.Arg, requester.NodeID) {
+				wl[e.Host]++
+			}
+		}
+		return out, c08Result(out), wl
+	}
+	failOp := vlib.Pick(r, "NodePeers", "NodePeers", "NodePeers+ActiveHosts")
+	chaos.ResetCalls()
+	chaos.Fail = func(op string, n int) bool {
+		return op == "NodePeers" || (failOp != "NodePeers" && op == "ActiveHosts" && n == 1)
+	}
+	out, got, wl := ask()
+	failedReads := chaos.Calls("NodePeers")
+	chaos.Fail = nil
+	ev.Case(fmt.Sprintf("peers-read-fails/%s/%s/hosts=%d/peered=%d/%s", driver, method, nh, len(peered), failOp), failedReads > 0)
+	ev.Count("peer-requests-while-peer-list-unreadable", 1)
+	detail := map[string]interface{}{"driver": driver, "method": method, "hosts": nh, "already_peered": len(peered), "failing": failOp, "err": fmt.Sprint(out.Err), "index": idx}
+	if out.Panic != "" {
+		detail["panic"] = out.Panic
+		ev.Violate("panic:peers-read-fails", detail)
+		return
+	}
+	for _, n := range got {
+		if peered[string(n.ID)] {
+			ev.Violate("returned-already-peered-host:peers-read-fails", detail)
+			return
+		}
+	}
+	for h := range wl {
+		if peered[h] {
+			ev.Violate("already-peered-host-told-to-whitelist:peers-read-fails", detail)
+			return
+		}
+	}
+	// the store recovers: exactly the other hosts
+	out, got, _ = ask()
+	want := nh - len(peered)
+	for _, n := range got {
+		if peered[string(n.ID)] {
+			ev.Violate("returned-already-peered-host", detail)
+			return
+		}
+	}
+	if len(got) != want {
+		detail["err_after_recovery"] = fmt.Sprint(out.Err)
+		detail["returned"], detail["expected"] = len(got), want
+		ev.Violate("wrong-count-after-recovery:peers-read-fails", detail)
+	}
+}
+
+// c09SlowHostStaysRegistered (C09): a host is slow to answer a whitelist
+// instruction, or the request that set it off is given up while the
+// instruction is in flight. Nothing closed: the host is still counted, and it
+// is instructed again by the next peer request.
+func c09SlowHostStaysRegistered(ev *vlib.Evidence, driver string, idx int) {
+	r := vlib.Rand("C09-slow-"+driver, idx)
+	w, err := vlib.NewWorld(vlib.WorldOptions{Driver: driver})
+	if err != nil {
+		panic(err)
+	}
+	defer w.Close()
+	nh := 1 + r.Intn(3)
+	hosts := []*vlib.Identity{}
+	conns := []*vlib.Conn{}
+	for i := 0; i < nh; i++ {
+		h := vlib.NewIdentity("c09slowhost", i)
+		c, err := w.ConnectHost(h, "geth", fmt.Sprintf("192.0.2.%d:30303", i+1))
+		if err != nil {
+			ev.Inconclusive(fmt.Sprintf("c09 slow-host setup: %v", err))
+			return
+		}
+		hosts, conns = append(hosts, h), append(conns, c)
+	}
+	slow := r.Intn(nh)
+	mode := vlib.Pick(r, "request-given-up", "request-given-up", "host-error-reply")
+	delay := time.Duration(300+r.Intn(300)) * time.Millisecond
+	if mode == "host-error-reply" {
+		conns[slow].Rec.SetBehaviour(vlib.BehError, 0)
+	} else {
+		conns[slow].Rec.SetBehaviour(vlib.BehDelay, delay)
+	}
+	client := vlib.NewIdentity("c09slowclient", idx%5)
+	if _, err := w.ConnectClient(client, "geth", "192.0.2.200:30303"); err != nil {
+		ev.Inconclusive(fmt.Sprintf("c09 slow-host setup: %v", err))
+		return
+	}
+	arg := pool.PeerRequest{Num: nh, Kind: "geth"}
+	n := w.NextNonce(client.NodeID)
+	ctx, cancel := context.WithTimeout(context.Background(), time.Duration(40+r.Intn(80))*time.Millisecond)
+	var raw json.RawMessage
+	ferr := w.Local.Call(ctx, &raw, "vipnode_peer", vlib.RefSign(client.Key, "vipnode_peer", client.NodeID, n, arg), client.NodeID, n, arg)
+	cancel()
+	time.Sleep(delay + 100*time.Millisecond) // the slow answer has arrived by now, nothing is in flight
+	ev.Case(fmt.Sprintf("slow-host/%s/hosts=%d/%s", driver, nh, mode), true)
+	ev.Count("peer-requests-with-a-slow-or-failing-host", 1)
+	detail := map[string]interface{}{"driver": driver, "hosts": nh, "mode": mode, "first_request": fmt.Sprint(ferr), "index": idx}
+	if got := w.Pool.NumRemotes(); got != nh {
+		detail["counted"], detail["open_registered_connections"] = got, nh
+		ev.Violate("count-of-connected-hosts-wrong:after-slow-whitelist", detail)
+		return
+	}
+	conns[slow].Rec.SetBehaviour(vlib.BehAck, 0)
+	// a second client (not yet peered with anyone): every host is instructed and returned
+	client2 := vlib.NewIdentity("c09slowclient2", idx%5)
+	if _, err := w.ConnectClient(client2, "geth", "192.0.2.201:30303"); err != nil {
+		ev.Inconclusive(fmt.Sprintf("c09 slow-host setup: %v", err))
+		return
+	}
+	stamp := w.Tick()
+	n2 := w.NextNonce(client2.NodeID)
+	out := guardedCall(w.Local, "vipnode_peer", vlib.RefSign(client2.Key, "vipnode_peer", client2.NodeID, n2, arg), client2.NodeID, n2, arg)
+	instructed := false
+	for _, e := range w.EventsSince(stamp) {
+		if e.Method == "whitelist" && e.Host == hosts[slow].NodeID {
+			instructed = true
+		}
+	}
+	if !instructed {
+		detail["second_request"] = fmt.Sprint(out.Err)
+		ev.Violate("open-host-not-instructed:after-slow-whitelist", detail)
+	}
+}
+
+// c10InactiveRace (C10): keep-alives of one client that lists a host whose
+// check-ins have stopped run concurrently with each other and with writes to
+// the host's record (transaction conflicts on the persistent store). Every
+// answer must be one a one-at-a-time ordering could give: the expired peers
+// it names are distinct and were named in the request.
+func c10InactiveRace(ev *vlib.Evidence, driver string, s store.Store, idx int) {
+	r := vlib.Rand("C10-inactive-"+driver, idx)
+	client := store.NodeID(fmt.Sprintf("ir-client-%d", idx))
+	nh := 1 + r.Intn(3)
+	hosts := []string{}
+	stale := time.Now().Add(-time.Hour)
+	for i := 0; i < nh; i++ {
+		h := store.NodeID(fmt.Sprintf("ir-host-%d-%d", idx, i))
+		s.SetNode(store.Node{ID: h, IsHost: true, Kind: "geth", LastSeen: stale})
+		hosts = append(hosts, string(h))
+	}
+	s.SetNode(store.Node{ID: client, LastSeen: time.Now()})
+	var wg sync.WaitGroup
+	stop := make(chan struct{})
+	wg.Add(1)
+	go func() {
+		defer wg.Done()
+		for k := 0; ; k++ {
+			select {
+			case <-stop:
+				return
+			default:
+			}
+			s.SetNode(store.Node{ID: store.NodeID(hosts[k%nh]), IsHost: true, Kind: "geth", LastSeen: stale, NodeVersion: fmt.Sprint(k)})
+		}
+	}()
+	type bad struct {
+		Answer []string
+		Why    string
+	}
+	var mu sync.Mutex
+	var first *bad
+	answers := 0
+	var uwg sync.WaitGroup
+	for g := 0; g < 6; g++ {
+		uwg.Add(1)
+		go func(g int) {
+			defer uwg.Done()
+			for k := 0; k < 12; k++ {
+				inactive, err := s.UpdateNodePeers(client, hosts, uint64(k))
+				if err != nil {
+					continue
+				}
+				seen := map[string]bool{}
+				why := ""
+				names := []string{}
+				for _, n := range inactive {
+					id := string(n)
+					names = append(names, id)
+					if seen[id] {
+						why = "names a peer twice"
+					}
+					seen[id] = true
+					known := false
+					for _, h := range hosts {
+						known = known || h == id
+					}
+					if !known {
+						why = "names a peer that was not reported"
+					}
+				}
+				mu.Lock()
+				answers++
+				if why != "" && first == nil {
+					first = &bad{names, why}
+				}
+				mu.Unlock()
+			}
+		}(g)
+	}
+	uwg.Wait()
+	close(stop)
+	wg.Wait()
+	ev.Case(fmt.Sprintf("inactive-race %s idx=%d hosts=%d", driver, idx, nh), true)
+	ev.Count("inactive-race-answers", int64(answers))
+	if first != nil {
+		ev.Defer("inactive-race:"+driver+":answer-no-serial-order-gives", map[string]interface{}{"answer": first.Answer, "why": first.Why, "reported_peers": hosts})
+	}
+}
+
+// c10UpdatesWhileCreditsFail (C10): clients update concurrently against
+// shared hosts while some of the host credits cannot be written. No charge may
+// be made for a credit that was not written: at quiescence the balances still
+// add up to zero, as they would after the same requests one at a time.
+func c10UpdatesWhileCreditsFail(ev *vlib.Evidence, driver string, idx int) {
+	r := vlib.Rand("C10-creditfault-"+driver, idx)
+	var chaos *vlib.Chaos
+	w, err := vlib.NewWorld(vlib.WorldOptions{Driver: driver, Price: big.NewInt(1000), Interval: time.Minute,
+		WrapStore: func(s store.Store) store.Store { chaos = vlib.NewChaos(s, int64(idx)); return chaos }})
+	if err != nil {
+		panic(err)
+	}
+	defer w.Close()
+	nh, nc := 2+r.Intn(2), 3+r.Intn(6)
+	ids := []string{}
+	infos := []ethnode.PeerInfo{}
+	for i := 0; i < nh; i++ {
+		h := vlib.NewIdentity("c10fhost", i)
+		if _, err := w.ConnectHost(h, "geth", fmt.Sprintf("192.0.2.%d:1", i+1)); err != nil {
+			ev.Inconclusive(fmt.Sprintf("c10 credit-fault setup: %v", err))
+			return
+		}
+		ids = append(ids, h.NodeID)
+		infos = append(infos, ethnode.PeerInfo{ID: h.NodeID})
+	}
+	clients := []*vlib.Identity{}
+	for i := 0; i < nc; i++ {
+		c := vlib.NewIdentity("c10fclient", i)
+		var resp pool.ConnectResponse
+		if err := w.Signed(w.Local, c, c.NodeID, "vipnode_connect", &resp, vlib.ConnectReq(false, "geth", "", "")); err != nil {
+			ev.Inconclusive(fmt.Sprintf("c10 credit-fault setup: %v", err))
+			return
+		}
+		clients = append(clients, c)
+		ids = append(ids, c.NodeID)
+	}
+	w.Clock.Set(time.Now().Add(30 * time.Minute))
+	every := 2 + r.Intn(3)
+	var failedCredits int64
+	chaos.FailCall = func(op, key, arg string, n int) bool {
+		// only credits (positive amounts) fail: the charge and a refund go through
+		if op == "AddNodeBalance" && !strings.HasPrefix(arg, "-") && n%every == 0 {
+			atomic.AddInt64(&failedCredits, 1)
+			return true
+		}
+		return false
+	}
+	var wg sync.WaitGroup
+	rounds := 2 + r.Intn(3)
+	for _, c := range clients {
+		wg.Add(1)
+		go func(c *vlib.Identity) {
+			defer wg.Done()
+			for k := 0; k < rounds; k++ {
+				w.Update(w.Local, c, infos, uint64(k))
+			}
+		}(c)
+	}
+	wg.Wait()
+	chaos.FailCall = nil
+	sum := new(big.Int)
+	for _, id := range ids {
+		b, err := w.RawStore.GetNodeBalance(store.NodeID(id))
+		if err != nil {
+			continue
+		}
+		sum.Add(sum, &b.Credit)
+	}
+	ev.Case(fmt.Sprintf("updates-while-credits-fail %s idx=%d clients=%d hosts=%d", driver, idx, nc, nh), failedCredits > 0)
+	ev.Count("host-credits-failed-during-concurrent-updates", failedCredits)
+	if sum.Sign() != 0 {
+		ev.Defer("pool:"+driver+":charged-for-credit-that-was-not-written", map[string]interface{}{"sum_of_balances": sum.String(), "failed_credits": failedCredits, "clients": nc, "hosts": nh, "updates_per_client": rounds})
+	}
 }
